@@ -31,6 +31,8 @@ def run_case(exe, rundir, case, timeout=60, keep=False):
         with open(stub + ext, "w", newline="") as f:
             f.write(txt)
     env = dict(os.environ)
+    env.setdefault("ASAN_OPTIONS", "abort_on_error=0:detect_leaks=0:exitcode=99:allocator_may_return_null=1")
+    env.setdefault("UBSAN_OPTIONS", "print_stacktrace=1:halt_on_error=1:exitcode=98")
     env["VERIF_REC"] = os.path.join(d, "rec.ndjson")
     if case.get("answer") is not None:
         with open(os.path.join(d, "ans.txt"), "w") as f:
